@@ -1,6 +1,7 @@
 CONSTANTS
   MaxLen = 2
   Export = TRUE
+  OtherUntil = 1
 SPECIFICATION Spec
 VIEW View
 CHECK_DEADLOCK FALSE
